@@ -10,6 +10,12 @@ CHECKS = {
     text="Search, not proof. The microsecond-fraction grid x 9 whole-second parts x 3 input forms is enumerated completely in the thorough tier (27M evaluations) and on all rounding boundaries in the quick tier; magnitudes up to a century, date-times over years 2-9998 with every whole-minute offset, and (timecode, timescale) pairs are sampled with Hypothesis.",
     note="Oracle is fractions.Fraction arithmetic and a hand-written xs:duration lexer; python datetime is trusted. Tolerances: 0.5 ms (+1e-9 s float input error); one tick or one microsecond (timedelta resolution) for timecodes.",
     design_ref="DESIGN.md section 4, C19"),
+ "C20": dict(
+    engine="hypothesis (model-based operation sequences)",
+    technique="model-based testing: generated read/peek/seek/tell sequences compared step by step with io.BytesIO over the window slice, LRU clock driven by the case",
+    text="Search, not proof: 40k (quick) to 3M (thorough) generated configurations x operation sequences of up to 40 steps over files of 0-300 position-coded bytes, so buffer boundaries, evictions and window edges are dense.",
+    note="Reference model: io.BytesIO(file[offset:offset+size]). The module's time source is replaced by a case-driven sequence; underlying object is BytesIO, an unbuffered real file, or data=.",
+    design_ref="DESIGN.md section 4, C20"),
 }
 
 _PENDING = "check under construction in this build round; not yet registered (see DESIGN.md section 9)"
